@@ -51,6 +51,13 @@ def _sim(cls: str, depth: int, widths: tuple) -> CompSim:
 
 
 def impl(case: Case) -> list[str]:
+    try:
+        return _impl(case)
+    except Exception as e:  # noqa: BLE001 - an exception of the real code is an observation
+        return [f"raise {type(e).__name__}"] + ["-"] * len(case.ops)
+
+
+def _impl(case: Case) -> list[str]:
     d = case.desc
     cls = d["cls"]
     sim = _sim(cls, d["depth"], tuple(d["layout"]))
@@ -81,6 +88,10 @@ def monitor(case: Case, out: list[str]):
     clear empties it even when a write executes in the same cycle."""
     depth = case.desc["depth"]
     basic = case.desc["cls"] == "basic"
+    if out[0] != "ok":
+        if basic and depth == 0:
+            return None  # BasicFifo(depth=0) is rejected at elaboration (mod_add asserts mod > 0): outside the property
+        return f"the component does not elaborate/simulate: {out[0]}"
     q: deque = deque()
     for k, (line, obs) in enumerate(zip(case.ops, out[1:])):
         w, r, p, c = parse(line)
@@ -121,6 +132,8 @@ def monitor(case: Case, out: list[str]):
 def nontrivial(case: Case, out: list[str]) -> bool:
     """full and empty both reached after traffic, or read and write executed in one cycle, or clear with a write"""
     depth = case.desc["depth"]
+    if out[0] != "ok":
+        return False
     seen_full = seen_empty_after = simul = clr_w = False
     n = 0
     for obs in out[1:]:
@@ -167,13 +180,16 @@ def gen_cases(ctx: Check, cls: str) -> list[Case]:
     cfgs = _configs(ctx)
     if cls == "fifo":
         cfgs = [(0, (4,))] + cfgs  # SyncFIFO accepts depth 0: nothing is ever ready
+    else:
+        # excluded point of the theorems' hypothesis 0 < depth: the real code refuses to elaborate (model: same)
+        cases.append(_mk(cls, 0, (4,), [(1, 1, 1, 0), (None, 0, 0, 1)], "directed"))
     strip = (lambda cyc: (cyc[0], cyc[1], 0, 0)) if cls == "fifo" else (lambda cyc: cyc)
     for depth, lay in cfgs:
         width = sum(lay)
         if depth <= ctx.pick(9, 17):
-            for seq in directed_ops(depth, width, rng):
+            for seq in directed_ops(depth, width, rng, dense=ctx.thorough or depth <= 4):
                 cases.append(_mk(cls, depth, lay, [strip(c) for c in seq], "directed"))
-        n = ctx.pick(120, 800)
+        n = ctx.pick(100, 400)
         for reg in REGIMES[: ctx.pick(5, 7)]:
             cases.append(_mk(cls, depth, lay, [strip(c) for c in random_ops(rng, n, width, *reg)], "random"))
     if ctx.thorough:
